@@ -10,6 +10,7 @@ semantics for the analysed code (evaluation order and the number of evaluations 
   C4  not not c  in a test position     -> c
   C6  'lit' == x                        -> x == 'lit'         (likewise !=)
   C7  isinstance(x, A) or isinstance(x, B) -> isinstance(x, (A, B))
+  C8  if a: (if b: S)                   -> if a and b: S      (no else branches)
   C5  t = X ; S(t)                      -> S(X)               when t is a single-assignment, single-use local read first in S
 
 Positions of the surviving nodes are kept (reports still point into the file); a rewritten node takes the position of the
@@ -85,6 +86,13 @@ class _Canon(ast.NodeTransformer):
         if node.orelse and isinstance(node.test, ast.UnaryOp) and isinstance(node.test.op, ast.Not):
             node.test = node.test.operand
             node.body, node.orelse = node.orelse, node.body
+        # C8: `if a:` whose whole body is `if b: S` (neither has an else)  ->  `if a and b: S`
+        while not node.orelse and len(node.body) == 1 and isinstance(node.body[0], ast.If) and not node.body[0].orelse:
+            inner = node.body[0]
+            vals = (list(node.test.values) if isinstance(node.test, ast.BoolOp) and isinstance(node.test.op, ast.And) else [node.test]) + \
+                   (list(inner.test.values) if isinstance(inner.test, ast.BoolOp) and isinstance(inner.test.op, ast.And) else [inner.test])
+            node.test = ast.copy_location(ast.BoolOp(op=ast.And(), values=vals), node.test)
+            node.body = inner.body
         # C2b: a negative comparison with an else branch is the positive comparison with the branches swapped
         if node.orelse and isinstance(node.test, ast.Compare) and len(node.test.ops) == 1 and isinstance(node.test.ops[0], (ast.IsNot, ast.NotEq, ast.NotIn)):
             t = node.test
